@@ -212,6 +212,14 @@ def r2_octave(ctx):
         # accidentals part
         rest = parts[1:]
         okacc = len(rest) == 1 and rest[0][0] == 'expr' and _is_accidental_output(rest[0][1], pp, cond_f, ne_atoms)
+        if not okacc and len(rest) == 1 and rest[0][0] == 'expr':
+            # decided on the finite domain instead: for every pitch name of the Chromas table (the only names an AgnosticPitch
+            # accepts) the expression is computed by the checker's evaluator and compared with the accidentals of the name
+            verdict = _accidentals_on_all_names(ctx, exp, rest[0][1], pp, cond_f, ne_atoms)
+            if verdict is None:
+                raise AnalysisError(f'{at}: the accidentals part `{src(rest[0][1])[:80]}` is neither a recognised form nor computable '
+                                    f'for the pitch names of the Chromas table')
+            okacc = verdict
         ctx.check(okacc, 'R3', at, exp.qualname, 'exporter-accidentals-appended',
                   'the accidentals (mapped + -> #, - -> -) follow the letters',
                   f'after the letters comes `{" + ".join(src(x[1])[:60] for x in rest)}`')
@@ -244,6 +252,41 @@ def _concat_parts(node):
             parts.append(('expr', n))
     rec(node)
     return parts
+
+
+def _accidentals_on_all_names(ctx, exp, node, pp, cond, ne_atoms):
+    """True / False: for every name of the Chromas table the text `node` evaluates to the accidentals of the name with + -> #
+    (on a path where the accidentals are known to be empty / non-empty only the names with that property count); None when the
+    evaluator cannot compute it."""
+    chromas = ctx.ce.module_const(N.PITCH, 'Chromas')
+    if not isinstance(chromas, dict) or not chromas:
+        return None
+
+    class NameIs(ast.NodeTransformer):
+        def __init__(self, name):
+            self.name = name
+
+        def visit_Attribute(self, n):
+            if src(n) == f'{pp}.name':
+                return ast.Constant(value=self.name)
+            return self.generic_visit(n)
+    n_ok = 0
+    for name in chromas:
+        if not isinstance(name, str):
+            return None
+        want = ''.join('#' if c == '+' else '-' for c in name if c in '+-')
+        if ne_atoms and cond is not None:
+            if F.forced(cond, ne_atoms[0], True) and not want:
+                continue
+            if F.forced(cond, ne_atoms[0], False) and want:
+                continue
+        ok, got = ctx.ce.try_eval(NameIs(name).visit(ast.parse(src(node), mode='eval').body), exp.module, exp.cls, {})
+        if not ok:
+            return None
+        if got != want:
+            return False
+        n_ok += 1
+    return n_ok > 0
 
 
 def _is_accidental_output(node, pp, cond=None, ne_atoms=()):
